@@ -40,7 +40,10 @@ RULE = ("each evaluation is one fresh interpreter executing one import history (
         "the remaining modules and snapshotting). Histories: all first-imports x 4 statement "
         "forms, all ordered pairs (all ordered triples in thorough), seeded full permutations "
         "with mixed forms. Distinct = distinct history; non-trivial = the history does not start "
-        "with chartparse.chart (the one order the test suite uses)")
+        "with chartparse.chart (the one order the test suite uses). Fault-injected histories: "
+        "the first import is interrupted by a KeyboardInterrupt at a seeded line event of the "
+        "package's module/class bodies (8 points per module quick, 160 thorough), retried, and "
+        "judged like any other history. Every import statement is also checked for what it bound")
 
 _SMOKE_DOC = None
 _CANON: dict[str, Any] | None = None
